@@ -26,6 +26,7 @@ helpers='''  have hSk := skipNl_len
   have hTN := tupleNames_len
   have hWLl := @wordLeaf_len
   have hArl := @arrayLeaf_len
+  have hGrl := @graphLeaf_len
 '''
 for n,a,x in fns:
     out+=f"theorem cons_{n} (f : Nat) (ih : ConsumesAt f) : {cstmt(n,a,x,'(f+1)')[1:-1]} := by\n  obtain ⟨{names}⟩ := ih\n{helpers}  intro {a} {x} rest h\n  simp only [{n}] at h\n  repeat' split at h\n  all_goals first | (cases h; done) | skip\n  all_goals grind\n\n"
